@@ -2,6 +2,8 @@ import Proofs.C01Expr
 import Proofs.C01Stmt
 import Proofs.C01ConcLaws
 import Proofs.C01Tables
+import Proofs.C01StmtSim
+import Proofs.C01Witness
 /-!
 # C01 — compiled execution preserves the meaning of the parsed program
 
@@ -15,13 +17,57 @@ open GoawkModel GoawkModel.C01
 
 variable {S : Sem}
 
-/-- FULL statement of the property on the model: whatever the reference semantics yields for a whole statement (normal
-completion, `next`, `exit`) the compiled code run by the VM yields too. Only the parts below are proved so far. -/
+/-- FULL statement of the property on the model (Stage B): whatever the reference semantics yields for a whole block
+(normal completion, `next`, `exit`), the compiled code run by the VM from its first instruction with an empty stack yields
+too, with the same world (output log, variables, arrays, record, exit status). `p.WF`: the `pre` / `post` parts of `for`
+statements are simple statements, as the grammar guarantees. -/
 def CompileStmtCorrect (S : Sem) : Prop :=
-  ∀ (p : Stmt) (w : S.W) (n : Nat),
+  ∀ (p : Stmt) (w : S.W) (n : Nat), p.WF →
     (∀ w', exec S n p w = some (.normal w') → ∃ m, run S (cStmt 0 0 p) m ⟨0, [], w⟩ = .normal w') ∧
     (∀ w', exec S n p w = some (.next w') → ∃ m, run S (cStmt 0 0 p) m ⟨0, [], w⟩ = .next w') ∧
     (∀ w', exec S n p w = some (.exit w') → ∃ m, run S (cStmt 0 0 p) m ⟨0, [], w⟩ = .exit w')
+
+/-- Stage B, outcome-indexed simulation (`compile_stmt_sim`): for EVERY statement — expression statements with the
+statement-position shortcuts, `print`, blocks, `if`/`else` through the fused or unfused inverted condition, `while`,
+`do`-`while`, `for (;;)` with and without condition, `break`, `continue`, `next`, `exit` — compiled inside any loop context
+(`bk` / `ct` = where the enclosing loop patches its break / continue jumps) and placed anywhere, with any stack: if
+`exec` gives outcome `o` then the VM reaches, stack unchanged and with `exec`'s world, the end of the statement's code
+(normal), the break target, the continue target, or halts with `next` / `exit`. No bound on nesting or iterations. -/
+theorem compile_stmt_sim (L : Laws S) (M : StmtLaws S) (n : Nat) (s : Stmt) (bk ct : Nat) (stk : List S.V) (w : S.W)
+    (o : Out S.W) (hwf : s.WF) (h : exec S n s w = some o) :
+    OutAt S (cStmt bk ct s) 0 (stmtSize s) (stmtSize s + bk) (stmtSize s + ct) stk w o :=
+  (stmt_sim L M n).1 s bk ct stk w o hwf h
+
+/-- Stage B (`compile_stmt_correct`): the full statement holds. -/
+theorem compile_stmt_correct (L : Laws S) (M : StmtLaws S) : CompileStmtCorrect S := by
+  intro p w n hwf
+  have key := fun o => compile_stmt_sim L M n p 0 0 [] w o hwf
+  have hC : CodeAt (cStmt 0 0 p) 0 (cStmt 0 0 p) := CodeAt.whole _
+  refine ⟨?_, ?_, ?_⟩
+  · intro w' h
+    have r := key _ h (cStmt 0 0 p) 0 hC
+    exact run_of_reach (by simpa using r) (by simp)
+  · intro w' h
+    have r := key _ h (cStmt 0 0 p) 0 hC
+    exact run_of_halts (by simpa using r)
+  · intro w' h
+    have r := key _ h (cStmt 0 0 p) 0 hC
+    exact run_of_halts (by simpa using r)
+
+/-- non-vacuity of Stage B: both law bundles hold for the concrete integer/string semantics -/
+theorem stage_b_for_semC : CompileStmtCorrect (semC false) := compile_stmt_correct (semC_laws false) semC_stmtLaws
+
+/-- G01-1 stated on the model: `Laws.concat_stable` is necessary. In the semantics `semFmt` (concatenation depends on a
+format held in the world, every other law holds) the program `print 1 2 (FORMAT = 5)` prints 13 under direct evaluation of
+the syntax tree and 18 when compiled (ConcatMulti converts after the last operand changed the format). -/
+theorem concatMulti_differs_without_stability :
+    (∀ b, semFmt.toBool (semFmt.ofBool b) = b) ∧
+    (∀ a b w, semFmt.cmp .ne a b w = !semFmt.cmp .eq a b w) ∧
+    (∀ v1 v2 rest w, semFmt.concatMulti (v1 :: v2 :: rest) w = (v2 :: rest).foldl (fun acc v => semFmt.concat acc v w) v1) ∧
+    ¬ (∀ a b w w', semFmt.concat a b w = semFmt.concat a b w') ∧
+    exec semFmt 3 g011Witness (0, []) = some (.normal (5, [13])) ∧
+    run semFmt (cStmt 0 0 g011Witness) 20 ⟨0, [], (0, [])⟩ = .normal (5, [18]) :=
+  GoawkModel.C01.concatMulti_differs_without_stability
 
 /-- Stage A (`compile_expr_correct`): for EVERY expression — all operators, `&&`/`||`/`?:` with their jumps, fused
 conditions inside `?:`, `FieldInt`, constant subscripts, `ConcatMulti`, assignment / `op=` / `++` / `--` on every lvalue
@@ -114,6 +160,18 @@ example : cCondT (.cmp .eq (.var .global 0) (.num .one)) ++ [cJumpT (.cmp .eq (.
     [.getVar .global 0, .num .one, .jumpCmp .ne 5] := by simp [cCondT, cJumpT, cExpr, cE]
 example : cCondT (.cmp .lt (.var .global 0) (.num .one)) ++ [cJumpT (.cmp .lt (.var .global 0) (.num .one)) 5] =
     [.getVar .global 0, .num .one, .cmp .lt, .jumpFalse 5] := by simp [cCondT, cJumpT, cExpr, cE]
+-- non-vacuity of Stage B: a loop with break and continue really runs under `exec` (hypothesis of `compile_stmt_correct`)
+example : (exec (semC false) 30
+    (.seq (.for (.expr (.assign (.var .global 0) (.num ⟨true, 0⟩))) (some (.cmp .lt (.var .global 0) (.num ⟨true, 5⟩)))
+      (.expr (.incr (.var .global 0) false false))
+      (.seq (.ifThen (.cmp .eq (.var .global 0) (.num ⟨true, 1⟩)) .cont)
+        (.seq (.ifThen (.cmp .eq (.var .global 0) (.num ⟨true, 3⟩)) .brk) (.print [.var .global 0])))) .skip) {}).map
+    (fun o => match o with | .normal w => w.out | _ => []) = some [48, 10, 50, 10] := by
+  simp [exec, loopBody, eval, evalList, semC, Conc.cmp, Conc.asNumber, Conc.cmpWith, Conc.toBool, Conc.arith, Conc.toNum, Conc.big,
+    Conc.getNth, Conc.setNth, Conc.printVals, Conc.joinFields, Conc.toStr, Conc.intBytes, decBytes, incrArith, NumC.one]
+  first | done | decide
+example : (Stmt.for (.expr (.assign (.var .global 0) (.num ⟨true, 0⟩))) (some (.cmp .lt (.var .global 0) (.num ⟨true, 5⟩)))
+    (.expr (.incr (.var .global 0) false false)) .brk).WF := by simp [Stmt.WF, Stmt.Simple]
 -- non-vacuity: a concrete evaluation satisfying the hypothesis of `compile_expr_correct`
 example : (eval (semC false) (.assign (.var .global 0) (.arith .add (.num ⟨true, 2⟩) (.num ⟨true, 3⟩))) {}).map (·.1) = some (CV.num 5) := by
   simp [eval, semC, Conc.arith, Conc.toNum, Conc.big]
